@@ -55,6 +55,8 @@ def link_flags(asan=False):
 
 def compile_driver(src, out, extra=(), asan=False, objs=()):
     flags = CXXFLAGS + (["-fsanitize=address,undefined", "-fno-omit-frame-pointer"] if asan else []) + include_flags()
+    # drivers reach into the implementation classes of the real code (private pimpl members)
+    flags = flags + ["-fno-access-control"]
     rc, o, err, secs = run(["g++"] + flags + list(extra) + [src] + list(objs) + link_flags(asan) + ["-o", out], timeout=900)
     if rc != 0:
         raise Undecided("native build: driver %s does not build:\n%s" % (src, err[-4000:]))
